@@ -18,7 +18,7 @@ impl Prop for C01 {
         history::history(&[(3, ElemKind::Tr), (2, ElemKind::U32), (1, ElemKind::Zs)], 0.15, n).boxed()
     }
     fn random_cases(tier: Tier) -> u64 {
-        if tier == Tier::Quick { 24_000 } else { 1_000_000 }
+        if tier == Tier::Quick { 200_000 } else { 3_000_000 }
     }
     fn execute(case: &History, ctx: &mut Ctx) -> Verdict {
         history::execute(case, Mode::Shape, ctx)
@@ -46,7 +46,7 @@ impl Prop for C05 {
         history::history(&[(3, ElemKind::Tr), (2, ElemKind::Bx), (2, ElemKind::Zs)], 0.8, n).boxed()
     }
     fn random_cases(tier: Tier) -> u64 {
-        if tier == Tier::Quick { 24_000 } else { 1_000_000 }
+        if tier == Tier::Quick { 200_000 } else { 3_000_000 }
     }
     fn execute(case: &History, ctx: &mut Ctx) -> Verdict {
         history::execute(case, Mode::Drops, ctx)
